@@ -140,6 +140,12 @@ class FdTable(EngineBase):
             k.deny = {"/proc/%d/fdinfo/%d" % (T, fd_): eno_}
         acc0 = len(k.acclog)
         ver0 = k.version
+        procfs0 = psutil.PROCFS_PATH
+        if plan.get("procfs_moved"):
+            # the application goes on to look at another procfs mount (which
+            # knows nothing of this PID): an existing Process object stays
+            # bound to the procfs it was created from, for every file it reads
+            psutil.PROCFS_PATH = plan["procfs_moved"]
         k.begin_op(1)
         try:
             out = ("value", getattr(p, subject)())
@@ -148,6 +154,7 @@ class FdTable(EngineBase):
                 raise
             out = ("exc", e)
         k.end_op()
+        psutil.PROCFS_PATH = procfs0
         k.deny = {}
         if cm is not None:
             try:
@@ -168,6 +175,8 @@ class FdTable(EngineBase):
         if block:
             tags.append("second_call_in_block" if block.get("oneshot", True)
                         else "second_call")
+        if plan.get("procfs_moved"):
+            tags.append("procfs_path_reassigned")
         if changed:
             tags.append("table_changed")
         if not alive:
@@ -287,6 +296,12 @@ class FdTable(EngineBase):
                 continue
             n = dry.get("nacc", 0)
             fdnums0 = [fd for fd, _ in world["fds"]]
+            if rng.random() < 0.5:
+                mp = dict(base, procfs_moved=rng.choice(
+                    ["/host/proc", "/mnt/proc2", "/proc/1/root/proc"]))
+                r = W.execute_forked(mp)
+                u["evals"] += 1
+                self._absorb(u, mp, r, ("procfs_moved", subject))
             for j in range(2 if tier == "quick" else 6):
                 between = []
                 for _ in range(rng.choice([1, 2, 3])):
